@@ -39,6 +39,12 @@ type ReadersPlan struct {
 	// reference afterwards, so that whatever a function initialises lazily on
 	// first use is first touched by concurrent tasks (matters in a cold process).
 	RefAfter bool `json:"ref_after,omitempty"`
+	// Pad perturbs the process's heap layout and the main goroutine's event
+	// count before the world is built. The race detector keeps a bounded,
+	// address- and history-dependent record of past accesses, so whether it
+	// still remembers the conflicting access is layout-dependent; the pad makes
+	// the layout part of the plan (explicit, replayable).
+	Pad int `json:"pad,omitempty"`
 }
 
 type ROp struct {
@@ -629,6 +635,7 @@ func genReaders(seed uint64, allowFmt bool) *ReadersPlan {
 		}
 		p.Tasks = append(p.Tasks, ops)
 	}
+	p.Pad = r.Intn(8)
 	p.Sched = engine.Schedule{Mode: "hash", Seed: r.Uint64(), Den: r.PickInt(1, 2, 3, 8)}
 	p.Poisons = []uint64{r.PickUint64(0, 1, 8), r.PickUint64(1<<63-1, ^uint64(0), r.Uint64()), r.PickUint64(0, 1, 8, 1<<63-1, ^uint64(0))}
 	return p
